@@ -15,7 +15,7 @@ use std::time::Duration;
 const T0: u64 = 1_000_000_000_000;
 const MS: u64 = 1_000_000;
 
-#[derive(Clone, Copy, Debug, PartialEq, Eq)]
+#[derive(Clone, Copy, Debug, PartialEq, Eq, Hash)]
 pub enum Ans {
     All,
     Part(usize),
@@ -72,11 +72,15 @@ pub struct Case {
     /// SO_RCVTIMEO / SO_SNDTIMEO of 15 ms set (otherwise unlimited)
     timeout: bool,
     script: Vec<Ans>,
+    /// errno as the caller left it before the call (a real kernel does not touch errno on success)
+    entry_errno: i32,
+    /// recvmsg/sendmsg only: the message header carries an ancillary-data buffer
+    ctl: bool,
 }
 
 impl Case {
     fn to_json(&self) -> Value {
-        json!({"call": self.call, "shape": self.shape, "nonblocking": self.nonblocking, "timeout_15ms": self.timeout, "script": self.script.iter().map(|a| a.to_s()).collect::<Vec<_>>()})
+        json!({"call": self.call, "shape": self.shape, "nonblocking": self.nonblocking, "timeout_15ms": self.timeout, "script": self.script.iter().map(|a| a.to_s()).collect::<Vec<_>>(), "entry_errno": self.entry_errno, "ancillary_buffer": self.ctl})
     }
     fn from_json(v: &Value) -> Option<Case> {
         Some(Case {
@@ -85,6 +89,8 @@ impl Case {
             nonblocking: v.get("nonblocking")?.as_bool()?,
             timeout: v.get("timeout_15ms")?.as_bool()?,
             script: v.get("script")?.as_array()?.iter().map(|a| a.as_str().and_then(Ans::from_s)).collect::<Option<Vec<_>>>()?,
+            entry_errno: v.get("entry_errno").and_then(Value::as_i64).unwrap_or(0) as i32,
+            ctl: v.get("ancillary_buffer").and_then(Value::as_bool).unwrap_or(false),
         })
     }
 }
@@ -98,6 +104,8 @@ struct Kernel {
     bufs: Vec<(usize, usize)>,
     /// bytes the kernel has moved so far
     moved: usize,
+    /// flat positions (in the caller's concatenated buffers) already transferred
+    done_at: Vec<bool>,
     sink: Vec<u8>,
     inner_calls: u32,
     waits: u32,
@@ -127,7 +135,8 @@ fn kernel_io(ranges: &[(usize, usize)], declared: usize, vectored: bool) -> isiz
         // ---- C17: every entry inside the caller's buffers, only unfilled bytes, in order
         let mut desc = Vec::new();
         let mut valid: Vec<(usize, usize)> = Vec::new();
-        let mut cursor = k.moved; // flat position (in the caller's concatenated buffers) expected next
+        let mut flats: Vec<usize> = Vec::new();
+        let mut cursor = 0usize; // flat position (in the caller's concatenated buffers) expected next
         let mut expected_entries = 0usize;
         {
             // number of caller iovecs not yet completely filled (zero-length ones after the
@@ -157,13 +166,15 @@ fn kernel_io(ranges: &[(usize, usize)], declared: usize, vectored: bool) -> isiz
                 Some((bi, off, fstart)) => {
                     desc.push(format!("buf{bi}+{off}..{}", off + len));
                     if *len > 0 {
-                        if fstart < k.moved && vectored && k.c17.is_none() {
-                            k.c17 = Some(("only-unfilled-ranges".into(), format!("inner call #{}: entry {idx} = buf{bi}+{off}..{} covers bytes that were already {} (only {} byte(s) moved so far start at flat offset {})", k.inner_calls, off + len, if k.write { "sent" } else { "filled" }, k.moved, k.moved)));
-                        } else if fstart < cursor && fstart >= k.moved && vectored && k.c17.is_none() {
+                        let again = (fstart..fstart + len).find(|p| k.done_at.get(*p).copied().unwrap_or(false));
+                        if let (Some(pos), true, true) = (again, vectored, k.c17.is_none()) {
+                            k.c17 = Some(("only-unfilled-ranges".into(), format!("inner call #{}: entry {idx} = buf{bi}+{off}..{} covers the caller's byte {pos}, which was already {} ({} byte(s) moved so far)", k.inner_calls, off + len, if k.write { "sent" } else { "filled" }, k.moved)));
+                        } else if fstart < cursor && vectored && k.c17.is_none() && idx > 0 {
                             k.c17 = Some(("ranges-in-order".into(), format!("inner call #{}: entry {idx} = buf{bi}+{off}..{} overlaps or precedes the previous entry", k.inner_calls, off + len)));
                         }
                         cursor = cursor.max(fstart + len);
                         valid.push((*addr, *len));
+                        flats.push(fstart);
                     }
                 }
                 None => {
@@ -206,7 +217,8 @@ fn kernel_io(ranges: &[(usize, usize)], declared: usize, vectored: bool) -> isiz
         };
         // move n bytes through the ranges, in order
         let mut left = n;
-        for (addr, len) in valid {
+        let mut seq = k.moved;
+        for ((addr, len), fstart) in valid.into_iter().zip(flats) {
             if left == 0 {
                 break;
             }
@@ -217,14 +229,18 @@ fn kernel_io(ranges: &[(usize, usize)], declared: usize, vectored: bool) -> isiz
                         let b = *((addr + i) as *const u8);
                         k.sink.push(b);
                     } else {
-                        *((addr + i) as *mut u8) = stream_byte(k.moved + (n - left) + i);
+                        *((addr + i) as *mut u8) = stream_byte(seq);
                     }
+                }
+                seq += 1;
+                if let Some(d) = k.done_at.get_mut(fstart + i) {
+                    *d = true;
                 }
             }
             left -= take;
         }
         k.moved += n;
-        sc::set_errno(0);
+        // like a real kernel: errno is left alone when the call succeeds
         n as isize
     })
 }
@@ -336,7 +352,7 @@ pub fn run_case(c: &Case, socks: &Socks) -> (Vec<Viol>, Vec<String>) {
     }
     let bufs: Vec<(usize, usize)> = store.iter().zip(c.shape.iter()).map(|(b, l)| (b.as_ptr() as usize + 4, *l)).collect();
     let total: usize = c.shape.iter().sum();
-    K.with(|k| *k.borrow_mut() = Kernel { write, script: c.script.clone(), bufs: bufs.clone(), ..Kernel::default() });
+    K.with(|k| *k.borrow_mut() = Kernel { write, script: c.script.clone(), bufs: bufs.clone(), done_at: vec![false; total], ..Kernel::default() });
     open_coroutine_core::verif::clock_set(T0);
     unsafe {
         let fl = libc::fcntl(fd, libc::F_GETFL);
@@ -345,7 +361,9 @@ pub fn run_case(c: &Case, socks: &Socks) -> (Vec<Viol>, Vec<String>) {
     }
     let flags_before = unsafe { libc::fcntl(fd, libc::F_GETFL) };
     let iov: Vec<libc::iovec> = bufs.iter().map(|(a, l)| libc::iovec { iov_base: *a as *mut c_void, iov_len: *l }).collect();
-    sc::set_errno(0);
+    let mut ctl_buf = [0u64; 4];
+    let (ctl_ptr, ctl_len) = if c.ctl { (ctl_buf.as_mut_ptr().cast::<c_void>(), 24usize) } else { (std::ptr::null_mut(), 0) };
+    sc::set_errno(c.entry_errno);
     let ret: isize = match c.call {
         "read" => { let f: extern "C" fn(c_int, *mut c_void, usize) -> isize = k_read; sc::read(Some(&f), fd, bufs[0].0 as *mut c_void, bufs[0].1) }
         "recv" => { let f: extern "C" fn(c_int, *mut c_void, usize, c_int) -> isize = k_recv; sc::recv(Some(&f), fd, bufs[0].0 as *mut c_void, bufs[0].1, 0) }
@@ -360,6 +378,8 @@ pub fn run_case(c: &Case, socks: &Socks) -> (Vec<Viol>, Vec<String>) {
             let mut m: libc::msghdr = unsafe { std::mem::zeroed() };
             m.msg_iov = iov.as_ptr().cast_mut();
             m.msg_iovlen = iov.len();
+            m.msg_control = ctl_ptr;
+            m.msg_controllen = ctl_len;
             sc::recvmsg(Some(&f), fd, &mut m, 0)
         }
         "sendmsg" => {
@@ -367,6 +387,8 @@ pub fn run_case(c: &Case, socks: &Socks) -> (Vec<Viol>, Vec<String>) {
             let mut m: libc::msghdr = unsafe { std::mem::zeroed() };
             m.msg_iov = iov.as_ptr().cast_mut();
             m.msg_iovlen = iov.len();
+            m.msg_control = ctl_ptr;
+            m.msg_controllen = ctl_len;
             sc::sendmsg(Some(&f), fd, &m, 0)
         }
         _ => unreachable!(),
@@ -486,7 +508,7 @@ fn alphabet(shape: &[usize], reduced: bool) -> Vec<Ans> {
         if parts.len() > 1 {
             v.push(Ans::Part(*parts.last().unwrap()));
         }
-        v.extend([Ans::Eagain(0), Ans::Eintr]);
+        v.extend([Ans::Eagain(0), Ans::Eintr, Ans::Reset]);
     } else {
         v.extend(parts.into_iter().map(Ans::Part));
         v.extend([Ans::Zero, Ans::Eagain(0), Ans::Eagain(1), Ans::Eagain(2), Ans::Eintr, Ans::Reset]);
@@ -512,17 +534,22 @@ fn scripts(alpha: &[Ans], depth: usize) -> Vec<Vec<Ans>> {
     out
 }
 
+fn depths(tier: &str) -> (usize, usize) {
+    if tier == "thorough" { (5, 7) } else { (4, 5) }
+}
+
 pub fn cases(tier: &str) -> Vec<Case> {
-    let thorough = tier == "thorough";
+    let (dfull, dred) = depths(tier);
     let mut v = Vec::new();
     for call in CALLS {
+        let msg = matches!(call, "recvmsg" | "sendmsg");
         for shape in shapes(call) {
             let full = alphabet(&shape, false);
             let red = alphabet(&shape, true);
-            let mut ss = scripts(&full, if thorough { 3 } else { 2 });
-            let deep = scripts(&red, if thorough { 4 } else { 3 });
-            for s in deep {
-                if !ss.contains(&s) {
+            let mut ss = scripts(&full, dfull);
+            let have: std::collections::HashSet<Vec<Ans>> = ss.iter().cloned().collect();
+            for s in scripts(&red, dred) {
+                if !have.contains(&s) {
                     ss.push(s);
                 }
             }
@@ -532,12 +559,26 @@ pub fn cases(tier: &str) -> Vec<Case> {
             }
             for script in ss {
                 for nonblocking in [false, true] {
+                    // a non-blocking descriptor gets exactly one kernel call: longer scripts add nothing
+                    if nonblocking && script.len() > 1 {
+                        continue;
+                    }
                     for timeout in [false, true] {
                         // the timeout setting only matters when a wait lets time pass
                         if timeout && !script.contains(&Ans::Eagain(1)) {
                             continue;
                         }
-                        v.push(Case { call, shape: shape.clone(), nonblocking, timeout, script: script.clone() });
+                        for entry_errno in [0, libc::EAGAIN, libc::EINTR] {
+                            if entry_errno != 0 && (script.len() > dfull.min(3) || timeout) {
+                                continue;
+                            }
+                            for ctl in [false, true] {
+                                if ctl && (!msg || script.len() > 2 || entry_errno != 0) {
+                                    continue;
+                                }
+                                v.push(Case { call, shape: shape.clone(), nonblocking, timeout, script: script.clone(), entry_errno, ctl });
+                            }
+                        }
                     }
                 }
             }
@@ -580,10 +621,12 @@ fn exec(b: &Batch, em: &mut Emitter) {
 
 pub fn run(scen: &str, tier: &str, rep: &mut Report) {
     let all = cases(tier);
-    let batches: Vec<Batch> = all.chunks(400).map(|c| Batch { cases: c.to_vec() }).collect();
+    let batches: Vec<Batch> = all.chunks(2000).map(|c| Batch { cases: c.to_vec() }).collect();
     rep.bounds = json!({"calls": CALLS, "shapes": {"single_buffer": [0, 1, 4], "iovecs": [[], [0], [4], [2, 2], [1, 0, 3], [3, 1, 2]]},
         "answers": "All | Part(k) for k in {1, b-1, b, b+1} | Zero | EAGAIN followed by a wait that is ready / lets time pass / fails | EINTR | ECONNRESET",
-        "script_depth": if tier == "thorough" { "3 over the full alphabet, 4 over {All, Part, EAGAIN+ready, EINTR}" } else { "2 over the full alphabet, 3 over {All, Part, EAGAIN+ready, EINTR}" },
+        "script_depth": format!("{} over the full alphabet, {} over {{All, Part(min), Part(max), EAGAIN+ready, EINTR, ECONNRESET}}; answers after the script are All", depths(tier).0, depths(tier).1),
+        "errno_on_entry": "0, EAGAIN, EINTR (scripts of <= 3 answers); the scripted kernel leaves errno alone on success",
+        "ancillary_buffer": "recvmsg/sendmsg with and without a 24-byte msg_control (scripts of <= 2 answers)",
         "modes": ["blocking", "non-blocking"], "socket_timeouts": ["unset", "15 ms"], "cases": all.len()});
     rep.require(&["cases_with_retries", "wait_seam_consulted", "partial_transfers"]);
     for c in all.iter().step_by((all.len() / 4).max(1)).take(4) {
